@@ -151,8 +151,8 @@ def _gen_x(rng, vclass, dim, forms=None):
 
 def _gen_y(rng, vclass, forms=None):
     form = rng.choice(forms or ["float", "float", "float", "npfloat", "npfloat", "int", "list", "tuple", "ndarray"])
-    if form == "int":
-        return form, enc(float(rng.randint(-9, 9)))
+    if form == "int":   # python ints have no signed zero (0*-1/-1 = -0.0): zero is generated as a float only
+        return form, enc(float(rng.choice([-9, -4, -3, -2, -1, 1, 2, 3, 5, 8])))
     if form in ("float", "npfloat"):
         return form, enc(_val(rng, vclass))
     return form, [enc(_val(rng, vclass)) for _ in range(rng.randint(0 if form != "ndarray" else 1, 3))]
@@ -193,7 +193,8 @@ def _gen_ops(rng, tier):
             L = lens[t]
             step = rng.choice([None, None, None, 1, 2, -1, -1, -2, 3, -3, 0])
             ops.append(["slice", t, _slice_arg(rng, L), _slice_arg(rng, L), step])
-            lens.append(L)   # upper bound only (used to aim indices)
+            if step != 0:
+                lens.append(L)   # upper bound only (used to aim indices)
         elif r < 0.8 and n < 9:
             b = rng.randrange(n)
             ops.append(["add", t, b])
@@ -202,11 +203,9 @@ def _gen_ops(rng, tier):
             b = rng.choice([i for i in range(n) if i != t])
             ops.append(["extend" if rng.random() < 0.5 else "prepend", t, b])
             lens[t] += lens[b]
-        else:
-            ops.append(["add", t, t]) if n < 9 else None
-            if n < 9:
-                lens.append(2 * lens[t])
-    ops = [o for o in ops if o]
+        elif n < 9:
+            ops.append(["add", t, t])
+            lens.append(2 * lens[t])
     queries = []
     for _ in range(rng.randint(1, 5)):
         t = rng.randrange(len(lens))
@@ -232,7 +231,7 @@ def _gen_log(rng, tier):
             if ragged:
                 forms += ["empty"]
             xf, x = _gen_x(rng, vclass, rng.randint(1, 4) if ragged else dim, forms)
-            yf, y = _gen_y(rng, vclass)
+            yf, y = _gen_y(rng, vclass, ["float", "float", "float", "npfloat", "npfloat", "list", "tuple", "ndarray"])
             ops.append(["call", xf, x, yf, y, _gen_id(rng)])
     return dict(kind="log", vclass=vclass, cls=rng.choice(["LoggingMonitor", "LoggingMonitor", "VerboseLoggingMonitor"]),
                 interval=rng.choice([1, 1, 1, 1, 2, 3, 0, None]), k=k, label=rng.choice([None, None, "cost"]), ops=ops)
@@ -653,6 +652,12 @@ def _shadow_ops(case):
     """the specification: plain python lists of the recorded values"""
     store, flags = [], []
     for o in case["ops"]:
+        if o[0] != "new" and any(not (0 <= i < len(store)) for i in ([o[1]] + ([o[2]] if o[0] in ("add", "extend", "prepend") else []))):
+            flags.append("IndexError")
+            continue
+        if o[0] in ("extend", "prepend") and o[1] == o[2]:
+            flags.append("AssertionError")
+            continue
         if o[0] == "new":
             store.append(dict(x=[], y=[], id=[], info=[], k=o[1], cls=o[2]))
             flags.append(True)
@@ -743,8 +748,8 @@ def _oracle_log(case, obs):
     for name in ("reader", "reader_noiter", "history"):
         r = obs[name]
         if "error" in r:
-            if name == "history" and any(o[0] == "call" and (not isinstance(o[2], list) or o[2] == [] ) for o in case["ops"]) :
-                continue   # read_history transposes: needs non-empty parameter vectors
+            if name == "history" and exp and (exp[0][2] == [] or any(isinstance(v, list) for e in exp for v in e[2])):
+                continue   # read_history transposes: needs flat parameter vectors, the first one non-empty
             out.append(_fail("log_roundtrip", "munge." + ("logfile_reader" if name != "history" else "read_history"), r["error"], r))
             continue
         if name != "reader_noiter" and exp:
@@ -851,7 +856,7 @@ def _oracle_files(case, obs):
     for nm, want in (("mon_history", supp), ("mon_traj", xs)):
         r = obs[nm]
         if "error" in r:
-            if nm == "mon_history" and mixed and r["error"] == "AttributeError":
+            if nm == "mon_history" and mixed and r["error"] in ("AttributeError", "TypeError"):
                 out.append(_fail("file_write", "munge.raw_to_converge", "mixed-scalar-types", r))
             else:
                 out.append(_fail("history_of_monitor", "munge." + ("read_history" if nm == "mon_history" else "read_trajectories"), r["error"], r))
@@ -939,8 +944,7 @@ def oracle(case, obs):
 
 def coq_preamble():
     return r"""
-From Coq Require Import String Ascii.
-From Coq Require PrimFloat.
+From Coq Require Import String Ascii PrimFloat.
 From MV Require Import Common.Num Pure.Monitor Pure.LogCodec.
 Open Scope bool_scope.
 Inductive pv := PF (f : PrimFloat.float) | PL (l : list pv).
@@ -968,8 +972,16 @@ Definition mon_is (m : mon) (x : list pv) (y : list (cost NumF)) (id : list (opt
   leqb Z.eqb (minfo m) inf && oeqb PrimFloat.eqb (mk m) k && Nat.eqb (mlen m) n.
 Definition q_is (r : option (pv * cost NumF)) (e : option (pv * cost NumF)) : bool :=
   oeqb (fun a b => pv_eqb (fst a) (fst b) && cost_eqb (snd a) (snd b)) r e.
+Definition oNew (k : option float) : op NumF pv Z Z := @ONew NumF pv Z Z k.
+Definition oCall (t : nat) (x : pv) (y : cost NumF) (id : option Z) : op NumF pv Z Z := @OCall NumF pv Z Z t x y id.
+Definition oInfo (t : nat) (m : Z) : op NumF pv Z Z := @OInfo NumF pv Z Z t m.
+Definition oSlice (t : nat) (s : pyslice) : op NumF pv Z Z := @OSlice NumF pv Z Z t s.
+Definition oAdd (a b : nat) : op NumF pv Z Z := @OAdd NumF pv Z Z a b.
+Definition oExtend (a b : nat) : op NumF pv Z Z := @OExtend NumF pv Z Z a b.
+Definition oPrepend (a b : nat) : op NumF pv Z Z := @OPrepend NumF pv Z Z a b.
+Definition newmon (k : option float) : mon := new_monitor NumF pv Z Z k.
 Definition run0 (ops : list (op NumF pv Z Z)) := run (@nil mon) ops.
-Definition nthm (st : list mon) (j : nat) : mon := nth j st (new_monitor NumF pv Z Z None).
+Definition nthm (st : list mon) (j : nat) : mon := nth j st (@new_monitor NumF pv Z Z None).
 (* codec instance: a printed number IS its token *)
 Definition seqb (a b : str) : bool := leqb Ascii.eqb a b.
 Definition tshow (t : str) : str := t.
@@ -1016,15 +1028,15 @@ def _terms_ops(case, obs):
     ops = []
     for o in case["ops"]:
         if o[0] == "new":
-            ops.append("ONew %s" % _kopt(o[1]))
+            ops.append("oNew %s" % _kopt(o[1]))
         elif o[0] == "call":
-            ops.append("OCall %s %s %s %s" % (natlit(o[1]), _pv(o[3]), _cost(o[5]), _oz(o[6])))
+            ops.append("oCall %s %s %s %s" % (natlit(o[1]), _pv(o[3]), _cost(o[5]), _oz(o[6])))
         elif o[0] == "info":
-            ops.append("OInfo %s %s" % (natlit(o[1]), zlit(o[2])))
+            ops.append("oInfo %s %s" % (natlit(o[1]), zlit(o[2])))
         elif o[0] == "slice":
-            ops.append("OSlice %s (mkSlice %s %s %s)" % (natlit(o[1]), opt(o[2], zlit), opt(o[3], zlit), opt(o[4], zlit)))
+            ops.append("oSlice %s (mkSlice %s %s %s)" % (natlit(o[1]), opt(o[2], zlit), opt(o[3], zlit), opt(o[4], zlit)))
         else:
-            ops.append("%s %s %s" % ({"add": "OAdd", "extend": "OExtend", "prepend": "OPrepend"}[o[0]], natlit(o[1]), natlit(o[2])))
+            ops.append("%s %s %s" % ({"add": "oAdd", "extend": "oExtend", "prepend": "oPrepend"}[o[0]], natlit(o[1]), natlit(o[2])))
     opsl = "(%s : list (op NumF pv Z Z))" % lst(ops)
     T = []
     flags = lst([blit(f is True) for f in obs["flags"]])
@@ -1067,7 +1079,8 @@ def _terms_log(case, obs):
     def coqtext(ls):
         return "(%s)" % " ++ ".join(["%s ++ [c_nl]" % _s(l) for l in ls] + ["[]"])
     blines = lines[1:-1]
-    idtab, lops, n = {}, [], 0
+    ncalls = sum(1 for o in case["ops"] if o[0] == "call")
+    idtab, lops, n = {i: str(i) for i in range(ncalls)}, [], 0
     calls = iter(toks)
     for o in case["ops"]:
         if o[0] == "info":
@@ -1076,16 +1089,15 @@ def _terms_log(case, obs):
             lops.append("LInfo %s" % _s(o[1]))
         else:
             t = next(calls)
-            idv = None if o[5] is None else (5 if o[5] == "np5" else o[5])
+            idv = None if o[5] is None else (1005 if o[5] == "np5" else o[5])
             if idv is not None:
+                if idtab.get(idv, t["id"]) != t["id"]:
+                    return []
                 idtab[idv] = t["id"]
-            idtab[n] = idtab.get(n, str(n)) if n not in idtab else idtab[n]
             y = "(YV %s)" % lst([_s(v) for v in t["y"]]) if isinstance(t["y"], list) else "(YS %s)" % _s(t["y"])
             lops.append("LCall %s %s %s" % (opt(idv, zlit), y, lst([_s(v) for v in t["x"]])))
             n += 1
     # integer printer: iteration numbers print as decimal, ids as Python printed them; a clash makes the table ambiguous
-    for i in range(n):
-        idtab.setdefault(i, str(i))
     if len(set(idtab.values())) != len(idtab):
         return []
     tab = "(%s : list (Z * str))" % lst(["(%s, %s)" % (zlit(z), _s(s)) for z, s in sorted(idtab.items())])
@@ -1116,12 +1128,11 @@ def _terms_files(case, obs):
     T = []
     recs = case["recs"]
     n = len(recs)
-    xs = [[ [v] for v in r[1]] for r in recs]          # as singleton-wrapped rows for fll typing
     traj = "(%s : list (list PrimFloat.float))" % lst([lst([flit(dec(v)) for v in r[1]]) for r in recs])
     ids = "(%s : list (option Z))" % lst([_oz(r[4]) for r in recs])
     k = _kopt(case["k"])
     calls = lst(["(%s, %s, %s)" % (_pv(r[1]), _cost(r[3]), _oz(r[4])) for r in recs])
-    mon = "(call_all (new_monitor NumF pv Z Z %s) (%s : list (record NumF pv Z)))" % (k, calls)
+    mon = "(call_all (newmon %s) (%s : list (record NumF pv Z)))" % (k, calls)
 
     def ok(name):
         r = obs.get(name)
